@@ -139,6 +139,24 @@ CHECKS["C12"] = ("model_checking",
                  "Trusted: TLC, Json, projector. Frames are specification-conformant ones (mutated-but-accepted frames are exercised by C07's corpus "
                  "only for totality). The stream check C10 exercises the same property with recycled pool buffers.", "4/C12")
 
+CHECKS["C07"] = ("model_checking",
+                 "OFMutate.tla enumerates the mutation space (every truncation, every byte / 16-bit position x boundary values, fills, extensions, "
+                 "pairs of length-like fields) over specification-made base frames of every kind Parse dispatches; each mutant is fed to the real "
+                 "Parse in a watched child process; TLC judges the acceptor (message or error, bounded time and memory)",
+                 "Base frames are Enc(tree) of OFSwGen.tla (switch- and controller-originated kinds, packet-in with packets, every action kind); "
+                 "OFMutate.tla lists the mutants as descriptors; the harness applies them and records for every mutant one of msg / err / panic / "
+                 "hang (CPU budget, confirmed alone) / heap; TotalTrace.tla accepts only msg and err for all of them.",
+                 "Trusted: TLC, Json, the watchdog (CPU time of the child, heap cap). The specification generates the input space and accepts "
+                 "outcomes; it does not model the decoders. Exhaustive in single mutations over every position; depth 2 only on length-like pairs.",
+                 "4/C07")
+CHECKS["C08"] = ("model_checking",
+                 "OFMutate.tla mutation space over specification-made packets for each of the 23 decoder entry points (incl. jumbo frames), run on "
+                 "the real decoders in a watched child process; TLC judges the acceptor (value or error, bounded time and memory)",
+                 "Base frames are EncPkt(tree) of PktGen.tla for Ethernet/VLAN, ARP, IPv4, IPv6 and its extension headers and options, ICMP, TCP, "
+                 "UDP, IGMP v1-v3, DHCP and its option list, LLDP TLVs; every length-like byte (IHL, HEL, option length, hardware length) and "
+                 "16-bit count takes 0, 1, maximum and wrap-around values at every position.",
+                 "Trusted: as C07. LLDP frames are decoded TLV by TLV (the LLDP container has no decoder of its own).", "4/C08")
+
 NOT_YET = {
 }
 
